@@ -231,6 +231,43 @@ func ruleNegotiationSymmetry(c *Ctx, rule string) {
 		c.check(ok, rule, name+": attaches the negotiate header to the response", posOf(w, fn), "SendHeader(Pairs(key, val))", "the server side no longer advertises negotiation in its response headers")
 	}
 	c.floor(rule, att, 4, "negotiate-header attach sites")
+	// the endpoint keeps what it was handed: the constructor's flag parameter is the only thing ever stored in a field of
+	// the endpoint, and the endpoint's receive loop function branches on that field
+	a := w.Anchors()
+	for _, ep := range []struct {
+		ctor string
+		typ  *types.Named
+		loop *ssa.Function
+	}{{"serveTunnel", a.Sv, a.ServerLoop}, {"newTunnelChannel", a.Ch, a.ClientLoop}} {
+		ctor := w.roleFunc(ep.ctor)
+		if ctor == nil || ep.typ == nil || ep.loop == nil {
+			c.fail(rule, ep.ctor+": keeps the negotiation flag", "-", "constructor, endpoint type or loop function not found")
+			continue
+		}
+		flagClass := plumbClass{"negotiation flag", func(w *World, t types.Type) bool {
+			bt, isB := t.Underlying().(*types.Basic)
+			return isB && bt.Kind() == types.Bool
+		}, "the result of the negotiate-header detection has no effect: the endpoint would use settings/flow control regardless of what the peer negotiated"}
+		_, fr, _, found := plumbKept(c, rule, plumbCtor{ep.ctor, ctor, ep.typ}, flagClass)
+		if !found || fr == nil {
+			if !found {
+				c.fail(rule, ep.ctor+": keeps the negotiation flag", posOf(w, ctor), "no (single) bool input stored in the endpoint: unrecognised constructor shape, or the flag is dropped")
+			}
+			continue
+		}
+		branches := false
+		for _, ld := range loadsOfField(ep.loop, *fr) {
+			if ifOn(ld) != nil {
+				branches = true
+			}
+			for _, r := range *ld.Referrers() {
+				if u, isU := r.(*ssa.UnOp); isU && u.Op == token.NOT && ifOn(u) != nil {
+					branches = true
+				}
+			}
+		}
+		c.check(branches, rule, ep.ctor+": the endpoint's loop function branches on "+fr.String(), posOf(w, ep.loop), "if "+fr.String()+" { settings prologue }", "the receive loop function "+w.Short(ep.loop)+" does not branch on the field that holds the negotiation flag: the settings exchange is unconditional (or never happens)")
+	}
 }
 
 func arrayStores(arr *ssa.Alloc) []ssa.Value {
@@ -1100,6 +1137,38 @@ func ruleUnregisterAndCallbacks(c *Ctx, r6, r7 string) {
 		}
 	}
 	c.check(ok7, r7, w.Short(ort)+": one open callback after registration, close callback deferred", posOf(w, ort), "open(ch) once after both adds; defer close(ch)", "the open/close callbacks are not 'exactly one open call after registration, and a deferred close call for the same channel', or one of them sits in a loop")
+	// the fields consulted above hold what the user configured: each is assigned only the option of the public options
+	// struct that is documented for it (public API names, frozen here; the handler's own field names are resolved by use)
+	tshName := ""
+	if tn := recvNamed(ort); tn != nil {
+		tshName = tn.Obj().Name()
+	}
+	for _, pl := range []struct{ rule, field, option, what string }{
+		{r7, ro.TSHOnConnect, "OnReverseTunnelOpen", "the open callback"},
+		{r7, ro.TSHOnDisconnect, "OnReverseTunnelClose", "the close callback"},
+		{r6, ro.TSHAffinity, "AffinityKey", "the affinity-key function"},
+	} {
+		nSt, okSt, at := 0, true, "-"
+		for _, f := range w.Funcs {
+			allInstrsLocal(f, func(in ssa.Instruction) {
+				st, isSt := in.(*ssa.Store)
+				if !isSt {
+					return
+				}
+				fr, _, isF := fieldOfAddr(st.Addr)
+				if !isF || fr.Type != tshName || fr.Field != pl.field {
+					return
+				}
+				nSt++
+				at = w.At(in)
+				src, _, isL := loadedField(origin(st.Val))
+				if !isL || src.Field != pl.option {
+					okSt = false
+				}
+			})
+		}
+		c.check(nSt >= 1 && okSt, pl.rule, tshName+"."+pl.field+": holds the configured "+pl.option, at, pl.field+" = options."+pl.option, pl.what+" the handler consults is not (only) assigned from the option "+pl.option+" the user configured: it is nil, constant or another option's value")
+	}
 	// the wait comes after the callbacks
 	var wait ssa.Instruction
 	allInstrs(ort, func(in ssa.Instruction) {
